@@ -20,6 +20,7 @@ Definition of_be32 (a b c d : Z) : Z := a * 2^24 + b * 2^16 + c * 2^8 + d.
 Definition dec32 (l : bytes) : Z := match l with [a; b; c; d] => of_be32 a b c d | _ => 0 end.
 Definition m31 (z : Z) : Z := z mod 2^31.
 Definition zmax (a b : Z) : Z := if a <? b then b else a.
+Definition zmin (a b : Z) : Z := if a <? b then a else b.
 
 (* ---------- strings.ToLower (Go): ASCII fast path, else strings.Map(unicode.ToLower) over UTF-8 with
    invalid bytes replaced by U+FFFD.  unicode.ToLower is tabulated for the runes the generator uses;
@@ -150,7 +151,8 @@ Arguments PIo {T}. Arguments PDone {T}. Arguments PUnsup {T}. Arguments PDesync 
 
 Section Parse.
   Context {T : Type} (rd : Z -> T -> rres T).
-  (* the loop of parseHeaderValueBlock; mx = largest buffer requested so far (make([]byte, length)) *)
+  (* the loop of parseHeaderValueBlock; mx = largest buffer requested so far: readBounded asks for at most
+     4096 bytes at a time (it used to be make([]byte, length) with the 32-bit length) *)
   Fixpoint parse_entries (n : nat) (s : T) (h : hmap) (e hl mx : Z) {struct n} : pres T :=
     match n with
     | O => PDone h hl e s mx
@@ -162,7 +164,7 @@ Section Parse.
         let ln := dec32 lb in
         match rd ln s1 with
         | RDesync => PDesync
-        | RFail c s2 => PIo c s2 (zmax (zmax mx 4) ln)
+        | RFail c s2 => PIo c s2 (zmax (zmax mx 4) (zmin ln 4096))
         | ROk name s2 =>
           match go_lower name with
           | None => PUnsup
@@ -171,15 +173,15 @@ Section Parse.
             let e2 := match hget low h with Some _ => 11 | None => e1 end in
             match rd 4 s2 with
             | RDesync => PDesync
-            | RFail c s3 => PIo c s3 (zmax (zmax mx 4) ln)
+            | RFail c s3 => PIo c s3 (zmax (zmax mx 4) (zmin ln 4096))
             | ROk vb s3 =>
               let lv := dec32 vb in
               match rd lv s3 with
               | RDesync => PDesync
-              | RFail c s4 => PIo c s4 (zmax (zmax (zmax mx 4) ln) lv)
+              | RFail c s4 => PIo c s4 (zmax (zmax (zmax mx 4) (zmin ln 4096)) (zmin lv 4096))
               | ROk value s4 =>
                 let h' := fold_left (fun h v => hadd low v h) (split_byte 0 value) h in
-                parse_entries n' s4 h' e2 (u32 (hl + ln + lv)) (zmax (zmax (zmax mx 4) ln) lv)
+                parse_entries n' s4 h' e2 (u32 (hl + ln + lv)) (zmax (zmax (zmax mx 4) (zmin ln 4096)) (zmin lv 4096))
               end
             end
           end
@@ -350,6 +352,7 @@ Definition read_frame (st : fstate) : val * fstate :=
           | RFail c s' => (v_io c, s') | RDesync => (v_desync, s) | ROk b s' => k (dec32 b) s'
           end in
         if typ =? 1 then
+          if len <? 10 then (v_serr 14 0, st2) else
           rd4 (fun sid0 s3 => rd4 (fun as0 s4 =>
             match rd_wire 1 s4 with
             | RFail c s5 => (v_io c, s5) | RDesync => (v_desync, s4)
@@ -362,8 +365,10 @@ Definition read_frame (st : fstate) : val * fstate :=
               end
             end) s3) st2
         else if (typ =? 2) || (typ =? 8) then
+          if len <? 4 then (v_serr 14 0, st2) else
           rd4 (fun sid0 s3 => read_header_part typ ver flags len (m31 sid0) [] (u32 (len - 4)) s3) st2
         else if typ =? 3 then
+          if negb (len =? 8) then (v_serr 14 0, st2) else
           rd4 (fun sid0 s3 => rd4 (fun status s4 =>
             if status =? 0 then (v_serr 14 (m31 sid0), s4)
             else if m31 sid0 =? 0 then (v_serr 17 0, s4)
@@ -371,11 +376,13 @@ Definition read_frame (st : fstate) : val * fstate :=
         else if typ =? 4 then
           rd4 (fun num s3 =>
             if 1024 <? num then (v_io 3, s3)
+            else if negb (len =? 4 + 8 * num) then (v_serr 14 0, s3)
             else match read_settings (Z.to_nat num) s3 [] with
                  | inl (c, s4) => (v_io c, s4)
                  | inr (l, s4) => (VL [VZ 4; VZ ver; VZ flags; VZ len; VL l], s4)
                  end) st2
         else if typ =? 6 then
+          if negb (len =? 4) then (v_serr 14 0, st2) else
           rd4 (fun id s3 =>
             if id =? 0 then (v_serr 17 0, s3)
             else if negb (flags =? 0) then (v_serr 14 id, s3)
@@ -395,8 +402,9 @@ Definition read_frame (st : fstate) : val * fstate :=
   end.
 
 Definition is_stop (v : val) : bool :=
-  match v with VL (VZ t :: _) => (t =? -4) || (t =? -9) || (t =? -8) | _ => false end.
-(* the harness loop: ReadFrame until a connection-level error (or fuel frames); each entry [result offset] *)
+  match v with VL (VZ t :: _) => t <? 0 | _ => false end.
+(* the harness loop: ReadFrame until the first error of any kind (BFE closes the session on every ReadFrame
+   error) or fuel frames; each entry [result offset] *)
 Fixpoint read_stream (fuel : nat) (st : fstate) : list val :=
   match fuel with
   | O => []
@@ -435,18 +443,23 @@ Definition write_frame (f : frame) : bytes * option (Z * bytes) :=
   | FSyn flags sid assoc prio slot hs =>
     if sid =? 0 then ([], None)
     else let b := write_block hs in
+         if 2^24 - 1 <? blen b + 10 then ([], Some (-1, b))    (* refused; the compressor has consumed the block *)
+         else
          (cf_header 1 flags (u32 (blen b + 10)) ++ be32 sid ++ be32 assoc ++ [(prio * 32) mod 256; slot] ++ b, Some (18, b))
   | FReply flags sid hs =>
     if sid =? 0 then ([], None)
-    else let b := write_block hs in (cf_header 2 flags (u32 (blen b + 4)) ++ be32 sid ++ b, Some (12, b))
+    else let b := write_block hs in
+         if 2^24 - 1 <? blen b + 4 then ([], Some (-1, b)) else (cf_header 2 flags (u32 (blen b + 4)) ++ be32 sid ++ b, Some (12, b))
   | FHeaders flags sid hs =>
     if sid =? 0 then ([], None)
-    else let b := write_block hs in (cf_header 8 flags (u32 (blen b + 4)) ++ be32 sid ++ b, Some (12, b))
+    else let b := write_block hs in
+         if 2^24 - 1 <? blen b + 4 then ([], Some (-1, b)) else (cf_header 8 flags (u32 (blen b + 4)) ++ be32 sid ++ b, Some (12, b))
   | FRst sid status =>
     if sid =? 0 then ([], None)
     else if status =? 0 then (cf_header 3 0 8 ++ be32 sid, None)         (* error after a partial write *)
     else (cf_header 3 0 8 ++ be32 sid ++ be32 status, None)
   | FSettings flags l =>
+    if (1024 <? Z.of_nat (length l)) then ([], None) else
     (cf_header 4 flags (u32 (Z.of_nat (length l) * 8 + 4)) ++ be32 (u32 (Z.of_nat (length l))) ++
      concat (map (fun t : Z * Z * Z => let '(fl, id, v) := t in be32 (u32 (Z.lor (fl * 2^24) id)) ++ be32 v) l), None)
   | FPing id => if id =? 0 then ([], None) else (cf_header 6 0 4 ++ be32 id, None)
@@ -466,7 +479,7 @@ Fixpoint write_stream (fs : list frame) (o idx : Z) : bytes * list chunk :=
     match blk with
     | Some (rel, p) =>
       let '(w, cs) := write_stream r (o + blen b) (idx + 1) in
-      (b ++ w, {| c_idx := idx; c_off := o + rel; c_size := blen p; c_plain := p |} :: cs)
+      (b ++ w, {| c_idx := idx; c_off := if rel <? 0 then -1 else o + rel; c_size := blen p; c_plain := p |} :: cs)
     | None => let '(w, cs) := write_stream r (o + blen b) idx in (b ++ w, cs)
     end
   end.
